@@ -53,6 +53,7 @@ enum resp {
 	RS_EOD_OTHER_FMT, /* End of Data in the other version's format */
 	RS_HIGHER_ANSWER, /* answer carries version 2 */
 	RS_HIGHER_CR_ONLY, /* a Cache Response carrying version 2, then a complete answer in version 0 on the same connection */
+	RS_CUT_BEFORE_EOD, /* the whole payload arrives, the End of Data never does (all three PDU stores are in use) */
 	RS_ERR_CORRUPT, /* Error Reports with the remaining codes: each has its own branch in the client */
 	RS_ERR_INVALID_REQ,
 	RS_ERR_UNSUPP_PDU,
@@ -67,6 +68,7 @@ static const char *RESP_NAME[RS__N] = {
 	"err-unsupported-version(lower)", "err-unsupported-version(same)", "err-unsupported-version(higher)", "err-unsupported-version(v1)",
 	"answer-in-version-0", "one-pdu-with-other-version", "eod-in-other-format", "answer-in-version-2",
 	"cache-response-in-version-2-then-answer-in-version-0",
+	"cut-before-end-of-data-then-timeout",
 	"err-corrupt-data", "err-invalid-request", "err-unsupported-pdu-type", "err-unknown-code(255)",
 };
 
@@ -286,6 +288,7 @@ static void cache_key(struct vbuf *b)
 }
 
 static bool has_cache_data(unsigned int mask);
+static long AL_LIVE, AL_LIVE_BYTES, AL_FOREIGN;
 static const char *WHERE = "?";
 
 static void state_key(struct vbuf *b)
@@ -296,6 +299,10 @@ static void state_key(struct vbuf *b)
 	k_dump_table(b, &SPKI);
 	cache_key(b);
 	mon_key(b);
+	/* C18S: what the library holds in memory besides the tables (temporary PDU stores, shadow tables) is part of
+	 * the state: two waits that look alike from outside differ in what a stop request has to release */
+	if (is_prop("C18S"))
+		vb_printf(b, "|live=%ld", AL_LIVE);
 }
 
 static int PREV_STATE = RTR_CONNECTING;
@@ -383,7 +390,6 @@ struct al_hdr {
 	uint64_t magic;
 	size_t size;
 };
-static long AL_LIVE, AL_LIVE_BYTES, AL_FOREIGN;
 
 static void *al_malloc(size_t n)
 {
@@ -539,9 +545,10 @@ static void respond(int kind, const struct rpdu *q)
 	case RS_OK:
 	case RS_CUT_TIMEOUT:
 	case RS_CUT_ERR:
+	case RS_CUT_BEFORE_EOD:
 	case RS_WRONGVER_MID:
 	case RS_EOD_OTHER_FMT:
-		if ((kind == RS_CUT_TIMEOUT || kind == RS_CUT_ERR) && N_PUBLISHED < CFG_MAX_PUBLISH) {
+		if ((kind == RS_CUT_TIMEOUT || kind == RS_CUT_ERR || kind == RS_CUT_BEFORE_EOD) && N_PUBLISHED < CFG_MAX_PUBLISH) {
 			cache_publish(&CACHE);
 			N_PUBLISHED++;
 		}
@@ -569,6 +576,13 @@ static void respond(int kind, const struct rpdu *q)
 			LAST.has_eod = false;
 			LAST.valid = false;
 			ENV.tail = kind == RS_CUT_ERR ? TAIL_ERROR : TAIL_TIMEOUT;
+		}
+		if (kind == RS_CUT_BEFORE_EOD) {
+			if (LAST.form != 'R')
+				b.len -= ver == 0 ? 12 : 24; /* everything but the End of Data */
+			LAST.has_eod = false;
+			LAST.valid = false;
+			ENV.tail = TAIL_TIMEOUT;
 		}
 		if (kind == RS_WRONGVER_MID && LAST.form != 'R') {
 			/* flip the version byte of the PDU after the Cache Response (payload or End of Data) */
@@ -1268,6 +1282,7 @@ static void setup_menus(void)
 		menu_add(RS_ERR_NODATA);
 		menu_add(RS_CUT_TIMEOUT);
 		menu_add(RS_CUT_ERR);
+		menu_add(RS_CUT_BEFORE_EOD);
 		menu_add(RS_DUP);
 		menu_add(RS_TIMEOUT);
 		/* the three ways a socket that learned router keys under version 1 comes to speak version 0 */
@@ -1335,6 +1350,7 @@ static void setup_menus(void)
 		menu_add(RS_OK_NEW);
 		menu_add(RS_CACHE_RESET);
 		menu_add(RS_CUT_TIMEOUT);
+		menu_add(RS_CUT_BEFORE_EOD);
 		menu_add(RS_DUP);
 		menu_add(RS_TIMEOUT);
 		OPEN_MENU[NOPEN++] = O_FAIL;
